@@ -212,3 +212,22 @@ Proof.
   intros. split; [apply key_to_file_agrees; assumption|].
   split; [apply vs_file_from_key_agrees|apply ts_file_from_key_agrees]; assumption.
 Qed.
+
+(* ---------- length ---------- *)
+
+Fixpoint rep (n : nat) (c : ascii) : string :=
+  match n with O => EmptyString | S k => String c (rep k c) end.
+
+(* DNS-legal namespaces (<= 63 bytes) and names (<= 253 bytes) give file names beyond NAME_MAX = 255:
+   os.Create fails and LocalManager.createConfig ends the process (finding F95).  The schemes would
+   have to shorten such names -- injectively. *)
+Lemma file_name_length_refuted :
+  exists ns name,
+    dns1123_label ns = true /\ dns1123_subdomain name = true /\
+    Nat.ltb 255 (String.length (conf_path (vs_file ns name))) = true /\
+    Nat.ltb 255 (String.length (conf_path (ts_file ns name))) = true /\
+    Nat.ltb 255 (String.length (conf_path (ingress_file ns name))) = true.
+Proof.
+  exists "team-a", (rep 63 "a" ++ "." ++ rep 63 "b" ++ "." ++ rep 63 "c" ++ "." ++ rep 61 "d").
+  repeat split; vm_compute; reflexivity.
+Qed.
